@@ -9,4 +9,4 @@ EmitPlans = TRUE
 INIT Init
 NEXT Next
 CHECK_DEADLOCK FALSE
-INVARIANTS InRange Memoryless DrawnIsFunctionOfPath UniformPerAttempt
+INVARIANTS InRange Memoryless DrawnIsFunctionOfPath UniformPerAttempt EmitBoundary
